@@ -9,7 +9,7 @@ import (
 // Skeleton programs for dependency / fork shapes that the purely random
 // generator reaches rarely.  Types and literal values are still random.
 
-const NTemplates = 15
+const NTemplates = 16
 
 // NFileTemplates file-passing skeletons follow the NTemplates dataflow ones.
 const NFileTemplates = 10
@@ -405,6 +405,43 @@ func Template(kind int, seed int64, cfg *Config) *Program {
 			top.Ret = append(top.Ret, Binding{Id: "w" + strings.ToLower(combo), Exp: ref(ps, "w")})
 		}
 		p.Pipelines = []*Pipeline{pass, top}
+	case 15:
+		// members of a struct literal come from different producers (SLOW is
+		// the first call: the scheduling checks slow it down): a consumer of
+		// one member - through a sub-pipeline's input, through a pipeline's
+		// return value, through an array of such literals - consumes only what
+		// that member is built from
+		p.Structs = append(p.Structs, &Struct{Name: "PAIR", Fields: []Param{{Name: "a", Type: T}, {Name: "b", Type: T}}})
+		pair := &Type{Kind: KStruct, Name: "PAIR"}
+		seep := src(&Stage{Name: "SEEP", Ins: []Param{{Name: "p", Type: pair}}, Outs: []Param{{Name: "n", Type: TInt}}})
+		seeps := src(&Stage{Name: "SEEPS", Ins: []Param{{Name: "bs", Type: ArrayOf(T)}}, Outs: []Param{{Name: "n", Type: TInt}}})
+		p.Stages = append(p.Stages, seep, seeps)
+		pairOf := func(a, b *Exp) *Exp { return &Exp{Kind: EStruct, Keys: []string{"a", "b"}, Elems: []*Exp{a, b}} }
+		inner := &Pipeline{Name: "INNER", Ins: []Param{{Name: "s", Type: pair}, {Name: "ps", Type: ArrayOf(pair)}},
+			Outs: []Param{{Name: "ya", Type: TInt}, {Name: "yb", Type: TInt}, {Name: "n", Type: TInt}, {Name: "nb", Type: TInt}},
+			Calls: []*Call{
+				{Callee: "USE", Alias: "UA", Binds: []Binding{{Id: "x", Exp: self("s", "a")}}},
+				{Callee: "USE", Alias: "UB", Binds: []Binding{{Id: "x", Exp: self("s", "b")}}},
+				{Callee: "SEEP", Alias: "UALL", Binds: []Binding{{Id: "p", Exp: self("s")}}},
+				{Callee: "SEEPS", Alias: "UBS", Binds: []Binding{{Id: "bs", Exp: self("ps", "b")}}},
+			},
+			Ret: []Binding{{Id: "ya", Exp: ref("UA", "y")}, {Id: "yb", Exp: ref("UB", "y")}, {Id: "n", Exp: ref("UALL", "n")}, {Id: "nb", Exp: ref("UBS", "n")}}}
+		mkp := &Pipeline{Name: "MKP", Ins: []Param{{Name: "a", Type: T}, {Name: "b", Type: T}}, Outs: []Param{{Name: "o", Type: pair}, {Name: "n", Type: TInt}},
+			Calls: []*Call{{Callee: "NOP"}},
+			Ret:   []Binding{{Id: "o", Exp: pairOf(self("a"), self("b"))}, {Id: "n", Exp: ref("NOP", "n")}}}
+		top := &Pipeline{Name: "TOP", Outs: []Param{{Name: "ya", Type: TInt}, {Name: "yb", Type: TInt}, {Name: "n", Type: TInt}, {Name: "nb", Type: TInt}, {Name: "va", Type: TInt}, {Name: "vb", Type: TInt}},
+			Calls: []*Call{
+				{Callee: "GEN", Alias: "SLOW", Binds: []Binding{{Id: "seed", Exp: lit(s1)}}},
+				{Callee: "GEN", Alias: "FAST", Binds: []Binding{{Id: "seed", Exp: lit(s2)}}},
+				{Callee: "INNER", Binds: []Binding{{Id: "s", Exp: pairOf(ref("SLOW", "one"), ref("FAST", "one"))},
+					{Id: "ps", Exp: &Exp{Kind: EArray, Elems: []*Exp{pairOf(ref("SLOW", "one"), ref("FAST", "one")), pairOf(ref("SLOW", "one"), ref("FAST", "one"))}}}}},
+				{Callee: "MKP", Binds: []Binding{{Id: "a", Exp: ref("SLOW", "one")}, {Id: "b", Exp: ref("FAST", "one")}}},
+				{Callee: "USE", Alias: "VIA_A", Binds: []Binding{{Id: "x", Exp: ref("MKP", "o", "a")}}},
+				{Callee: "USE", Alias: "VIA_B", Binds: []Binding{{Id: "x", Exp: ref("MKP", "o", "b")}}},
+			},
+			Ret: []Binding{{Id: "ya", Exp: ref("INNER", "ya")}, {Id: "yb", Exp: ref("INNER", "yb")}, {Id: "n", Exp: ref("INNER", "n")}, {Id: "nb", Exp: ref("INNER", "nb")},
+				{Id: "va", Exp: ref("VIA_A", "y")}, {Id: "vb", Exp: ref("VIA_B", "y")}}}
+		p.Pipelines = []*Pipeline{inner, mkp, top}
 	default:
 		fk := kind - NTemplates // file-passing skeleton number
 		// file-passing skeletons: a stage mapped over a run-time sized
